@@ -3,7 +3,8 @@
 
 case syntax (see harness/src/engines/limiter.rs): `max_cap,max_size;op;op;...`
   op `1` poll_ready, `2,kind,size` call (kind 0 other, 1 publish complete, 2 publish streamed,
-  3 chunk, 4 final chunk), `3,k` the k-th running call finishes.
+  3 chunk, 4 final chunk), `3,k` the k-th running call finishes, `4,kind,size` call future created
+  but not polled (spawned by io.rs), `5,j` first poll of the j-th such future.
 
 The small python mirror of the limiter below is a *generation aid only* (it decides which sequences
 respect the reading rule so that the exhaustive enumeration can be restricted to them); nothing is
@@ -42,11 +43,13 @@ class Mirror:
         self.cap = self.size = 0
         self.flag = self.paused = self.may = False
         self.run = []
+        self.sub = []
 
     def copy(self):
         m = Mirror(self.mc, self.ms)
         m.__dict__.update(self.__dict__)
         m.run = list(self.run)
+        m.sub = list(self.sub)
         return m
 
     def avail(self):
@@ -72,6 +75,17 @@ class Mirror:
         self.run.append(g)
         self.may = False
 
+    def submit(self, kind, size):
+        self.sub.append((kind, size))
+        self.may = False
+
+    def start(self, j):
+        if j < len(self.sub):
+            k, sz = self.sub.pop(j)
+            may = self.may
+            self.call(k, sz)
+            self.may = may
+
     def complete(self, k):
         if k < len(self.run):
             g = self.run.pop(k)
@@ -79,9 +93,12 @@ class Mirror:
             self.size -= g
 
 
-def exhaustive_legal(mc, ms, maxlen, wf=False):
+def exhaustive_legal(mc, ms, maxlen, wf=False, deferred=False, strict=False):
     """every op sequence of length 1..maxlen that respects the reading rule (calls only right after a
-    poll that answered ready, completions allowed in between); with wf: frame order of a codec"""
+    poll that answered ready, completions allowed in between); with wf: frame order of a codec;
+    with deferred: hand-over without first poll (op 4) and later first polls (op 5, not while the
+    dispatcher is paused or between its poll and the hand-over) as well; with strict: the discipline
+    of the repaired io.rs (no poll_ready while a handed-over call has not had its first poll)"""
     out = []
 
     def rec(m, ops, streaming):
@@ -90,7 +107,7 @@ def exhaustive_legal(mc, ms, maxlen, wf=False):
         if len(ops) == maxlen:
             return
         # two polls in a row change nothing but the woken flag: allow at most two
-        if not (len(ops) >= 2 and ops[-1] == (1,) and ops[-2] == (1,)):
+        if not (len(ops) >= 2 and ops[-1] == (1,) and ops[-2] == (1,)) and not (strict and m.sub):
             m2 = m.copy()
             m2.ready()
             ops.append((1,))
@@ -102,6 +119,19 @@ def exhaustive_legal(mc, ms, maxlen, wf=False):
                 m2.call(k, sz)
                 ops.append((2, k, sz))
                 rec(m2, ops, (k == 2) or (streaming and k == 3))
+                ops.pop()
+                if deferred:
+                    m2 = m.copy()
+                    m2.submit(k, sz)
+                    ops.append((4, k, sz))
+                    rec(m2, ops, (k == 2) or (streaming and k == 3))
+                    ops.pop()
+        if deferred and not m.may and not m.paused:
+            for j in range(len(m.sub)):
+                m2 = m.copy()
+                m2.start(j)
+                ops.append((5, j))
+                rec(m2, ops, streaming)
                 ops.pop()
         for i in range(len(m.run)):
             m2 = m.copy()
@@ -117,7 +147,8 @@ def exhaustive_legal(mc, ms, maxlen, wf=False):
 def exhaustive_any(mc, ms, maxlen):
     """every op sequence of length 1..maxlen over a reduced alphabet, legal or not (calls while the
     dispatcher is paused, completions of absent calls)"""
-    alpha = [(1,)] + [(2, k, sz) for (k, sz) in call_alphabet(ms) if (k, sz) not in ((1, ms), (4, 3))] + [(3, 0), (3, 1)]
+    alpha = ([(1,)] + [(2, k, sz) for (k, sz) in call_alphabet(ms) if (k, sz) not in ((1, ms), (4, 3))] + [(3, 0), (3, 1)]
+             + [(4, 1, ms + 1), (4, 2, ms // 2 + 1), (5, 0)])
     out = []
 
     def rec(ops):
@@ -134,7 +165,7 @@ def exhaustive_any(mc, ms, maxlen):
     return out
 
 
-def random_case(rng, maxlen=40, legal=True, wf=False):
+def random_case(rng, maxlen=40, legal=True, wf=False, deferred=False, strict=False):
     mc = rng.choice([0, 1, 1, 2, 3, 4, 7])
     ms = rng.choice([0, 10, 100, 1000, 65536])
     m = Mirror(mc, ms)
@@ -153,10 +184,18 @@ def random_case(rng, maxlen=40, legal=True, wf=False):
             else:
                 k = rng.choice([0, 1, 1, 2, 2, 3, 3, 4])
                 sz = rng.choice([0, 0, 1, ms // 3, ms // 2, ms, ms + 1, rng.randint(0, 2 * ms + 2)])
-            m.call(k, sz)
-            ops.append((2, k, sz))
+            if deferred and rng.random() < 0.5:
+                m.submit(k, sz)
+                ops.append((4, k, sz))
+            else:
+                m.call(k, sz)
+                ops.append((2, k, sz))
             streaming = (k == 2) or (streaming and k == 3)
-        elif not legal and r < 0.12:
+        elif m.sub and not m.may and (not m.paused or (not legal and rng.random() < 0.02)) and (rng.random() < 0.5 or (strict and rng.random() < 0.8)):
+            j = rng.randrange(len(m.sub))
+            m.start(j)
+            ops.append((5, j))
+        elif not legal and r < 0.12 and not m.paused:
             k = rng.choice([0, 1, 2, 3, 4])
             sz = rng.choice([0, 1, ms, ms + 1])
             m.call(k, sz)
@@ -165,6 +204,8 @@ def random_case(rng, maxlen=40, legal=True, wf=False):
             i = rng.randrange(len(m.run) + (0 if legal else 2))
             m.complete(i)
             ops.append((3, i))
+        elif strict and m.sub:
+            continue
         else:
             m.ready()
             ops.append((1,))
@@ -176,24 +217,26 @@ def all_cases(rng, tier="quick"):
     full = tier != "quick"
     legal_len = 8 if full else 7
     wf_len = 9 if full else 8
-    any_len = 5 if full else 4
+    def_len = 7 if full else 6
+    any_len = 4
     n_random = 40000 if full else 6000
-    legal = []
-    for mc in CAPS:
-        for ms in SIZES:
-            legal += exhaustive_legal(mc, ms, legal_len)
-    wf = []
-    for mc in CAPS:
-        for ms in SIZES:
-            wf += exhaustive_legal(mc, ms, wf_len, wf=True)
-    anyseq = []
-    for mc in CAPS:
-        for ms in SIZES:
-            anyseq += exhaustive_any(mc, ms, any_len)
+    cfgs = [(mc, ms) for mc in CAPS for ms in SIZES]
+    legal = [c for (mc, ms) in cfgs for c in exhaustive_legal(mc, ms, legal_len)]
+    wf = [c for (mc, ms) in cfgs for c in exhaustive_legal(mc, ms, wf_len, wf=True)]
+    dfr = [c for (mc, ms) in cfgs for c in exhaustive_legal(mc, ms, def_len + 1, wf=True, deferred=True)]
+    dfr += [c for (mc, ms) in cfgs for c in exhaustive_legal(mc, ms, def_len - 1, deferred=True)]
+    dfr = sorted(set(dfr) - set(legal) - set(wf))
+    spawn = [c for (mc, ms) in cfgs for c in exhaustive_legal(mc, ms, wf_len, wf=True, deferred=True, strict=True)]
+    spawn += [c for (mc, ms) in cfgs for c in exhaustive_legal(mc, ms, legal_len - 1, deferred=True, strict=True)]
+    spawn = sorted(set(spawn) - set(legal) - set(wf))
+    anyseq = [c for (mc, ms) in cfgs for c in exhaustive_any(mc, ms, any_len)]
     rl = [random_case(rng, 40, legal=True, wf=(i % 2 == 0)) for i in range(n_random)]
-    ra = [random_case(rng, 40, legal=False) for i in range(n_random // 2)]
+    rd = [random_case(rng, 40, legal=True, wf=(i % 2 == 0), deferred=True, strict=(i % 4 < 2)) for i in range(n_random)]
+    ra = [random_case(rng, 40, legal=False, deferred=(i % 2 == 0)) for i in range(n_random // 2)]
     return [("exhaustive-legal<=%d" % legal_len, legal), ("exhaustive-codec-order<=%d" % wf_len, wf),
-            ("exhaustive-any<=%d" % any_len, anyseq), ("random-legal", rl), ("random-any", ra)]
+            ("exhaustive-legal-spawned<=%d" % (legal_len - 1), spawn),
+            ("exhaustive-deferred-pre-fix<=%d" % (def_len - 1), dfr), ("exhaustive-any<=%d" % any_len, anyseq),
+            ("random-legal", rl), ("random-deferred", rd), ("random-any", ra)]
 
 
 if __name__ == "__main__":
